@@ -370,6 +370,7 @@ func runOneET(c *vh.Ctx, root string, p *proj.Project, v etVariant, vi int, seed
 		petToday                                  float64
 		steps                                     int
 		days, cropDays                            int
+		sumWdt                                    float64 // Σ wdt over the sub-steps of the day
 		grwFirst                                  float64 // groundwater level of the first simulated day
 		grwMoved                                  bool    // the level has differed from it since
 	)
@@ -461,6 +462,10 @@ func runOneET(c *vh.Ctx, root string, p *proj.Project, v etVariant, vi int, seed
 		},
 		AfterWater: func(g *hermes.GlobalVarsMain, w *hermes.WaterSharedVars, zeit, subd int, wdt, nsteps float64) {
 			steps = subd
+			if subd == 1 {
+				sumWdt = 0
+			}
+			sumWdt += wdt
 			if c08 && subd == 1 {
 				for i := 0; i < g.N; i++ {
 					avail := math.Max(0, (startWG[i]-g.WMIN[i])*g.DZ.Num)
@@ -491,6 +496,12 @@ func runOneET(c *vh.Ctx, root string, p *proj.Project, v etVariant, vi int, seed
 			}
 		},
 		DayEnd: func(g *hermes.GlobalVarsMain, w *hermes.WaterSharedVars, ns *hermes.NitroSharedVars, cs *hermes.CropSharedVars, zeit int) {
+			// the water routine withdraws evaporation and uptake as RATES times the sub-step length: the day's actual
+			// evaporation + transpiration is (ETA + ΣTP)·Σwdt, so the sub-steps must add up to exactly one day for
+			// "actual ≤ potential" (C08) and for the bounds of C06 to be statements about the day
+			if math.Abs(sumWdt-1) > 1e-9 {
+				viol("substeps-do-not-cover-day", fmt.Sprintf("the %d sub-steps of the day add up to %.12g days: evaporation and uptake rates are applied for that long (actual ET of the day = %.6g × (ETA + ΣTP))", steps, sumWdt, sumWdt), zeit, nil)
+			}
 			prevETC0, prevVerd, prevTray, prevPftrans = g.ETC0, g.VERDUNST, g.TRAY, g.PFTRANS
 			if steps > 1 {
 				st.MultiStepDays++
